@@ -1,19 +1,757 @@
-//! kbucket engine (ops starting with `k`).
-#![allow(unused)]
+//! kbucket engine (ops starting with `k`): C07 (structural invariants), C08 (closest / by-distance
+//! lookups), C16 (IP diversity limits) against `KBucketsTable<NodeId, Enr>`.
 use crate::rng::Rng;
 use crate::util::*;
 use crate::{Runner, Stats};
+use discv5::enr::{CombinedKey, NodeId};
+use discv5::kbucket::{
+    ConnectionState, Entry, FailureReason, InsertResult, KBucketsTable, Key, NodeStatus, UpdateResult,
+};
+use discv5::{ConnectionDirection, Enr};
+use std::collections::{BTreeMap, HashMap, HashSet};
+use std::net::Ipv4Addr;
+use std::time::Duration;
 
-#[derive(Default)]
-pub struct KbucketRunner;
+type Table = KBucketsTable<NodeId, Enr>;
 
-impl Runner for KbucketRunner {
-    fn reset(&mut self) {}
-    fn step(&mut self, _line: &str, out: &mut Vec<String>, _stats: &mut Stats) {
-        out.push("bad-op".into());
+/// Deterministic record for a value token `v<id>:<subnet|->`.
+fn make_val(id: u64, subnet: Option<u64>) -> Enr {
+    let mut r = Rng::new(id.wrapping_mul(0x1234_5678_9ABC_DEF1) ^ 0xA5A5);
+    let key: CombinedKey = key_from(&mut r);
+    let ip4 = subnet.map(|s| (Ipv4Addr::new(10, (s >> 8) as u8, s as u8, (id % 250 + 1) as u8), 9000 + (id % 1000) as u16));
+    make_enr(&key, id + 1, ip4, None, 0)
+}
+
+fn parse_val(s: &str) -> Option<(u64, Option<u64>)> {
+    let (a, b) = s.split_once(':')?;
+    let id = a.strip_prefix('v')?.parse().ok()?;
+    let sub = if b == "-" { None } else { Some(b.parse().ok()?) };
+    Some((id, sub))
+}
+
+fn fail_name(r: &FailureReason) -> &'static str {
+    match r {
+        FailureReason::TooManyIncoming => "too-many-incoming",
+        FailureReason::BucketFilter => "bucket-filter",
+        FailureReason::TableFilter => "table-filter",
+        FailureReason::KeyNonExistent => "no-key",
+        FailureReason::BucketFull => "bucket-full",
+        FailureReason::InvalidSelfUpdate => "self",
     }
 }
 
-pub fn gen_case(_rng: &mut Rng, _tier: &str, _profile: &str, _stats: &mut Stats) -> Vec<String> {
-    Vec::new()
+fn show_upd(r: &UpdateResult) -> String {
+    match r {
+        UpdateResult::Updated => "updated".into(),
+        UpdateResult::UpdatedAndPromoted => "promoted".into(),
+        UpdateResult::UpdatedPending => "updated-pending".into(),
+        UpdateResult::Failed(f) => format!("failed:{}", fail_name(f)),
+        UpdateResult::NotModified => "not-modified".into(),
+    }
+}
+
+fn show_ins(r: &InsertResult<NodeId>) -> String {
+    match r {
+        InsertResult::Inserted => "inserted".into(),
+        InsertResult::Pending { disconnected } => format!("pending:{}", hx(&disconnected.preimage().raw())),
+        InsertResult::StatusUpdated { promoted_to_connected } => format!("status-updated:{}", promoted_to_connected),
+        InsertResult::ValueUpdated => "value-updated".into(),
+        InsertResult::Updated { promoted_to_connected } => format!("updated:{}", promoted_to_connected),
+        InsertResult::UpdatedPending => "updated-pending".into(),
+        InsertResult::Failed(f) => format!("failed:{}", fail_name(f)),
+    }
+}
+
+fn log2_dist(a: &[u8; 32], b: &[u8; 32]) -> Option<usize> {
+    for i in 0..32 {
+        let x = a[i] ^ b[i];
+        if x != 0 {
+            return Some(255 - (i * 8 + x.leading_zeros() as usize));
+        }
+    }
+    None
+}
+
+fn xor_dist(a: &[u8; 32], b: &[u8; 32]) -> [u8; 32] {
+    let mut o = [0u8; 32];
+    for i in 0..32 {
+        o[i] = a[i] ^ b[i];
+    }
+    o
+}
+
+#[derive(Clone, PartialEq, Eq, Debug)]
+struct SnapNode {
+    key: [u8; 32],
+    conn: bool,
+    incoming: bool,
+    val: u64,
+    subnet: Option<[u8; 3]>,
+}
+
+#[derive(Clone, Default, Debug)]
+struct SnapBucket {
+    nodes: Vec<SnapNode>,
+    num_connected: usize,
+    pending: Option<SnapNode>,
+}
+
+pub struct KbucketRunner {
+    table: Option<Table>,
+    local: [u8; 32],
+    max_incoming: usize,
+    pending_ms: u64,
+    ip_filters: bool,
+    now_ms: u64,
+    op_index: u64,
+    vals: HashMap<(u64, Option<u64>), Enr>,
+    val_ids: HashMap<(NodeId, u64), u64>,
+    keys_seen: HashSet<[u8; 32]>,
+    stamps: HashMap<[u8; 32], u64>,
+    pending_since: HashMap<[u8; 32], u64>,
+    prev: BTreeMap<usize, SnapBucket>,
+}
+
+impl Default for KbucketRunner {
+    fn default() -> Self {
+        KbucketRunner {
+            table: None,
+            local: [0; 32],
+            max_incoming: 16,
+            pending_ms: 0,
+            ip_filters: false,
+            now_ms: 0,
+            op_index: 0,
+            vals: HashMap::new(),
+            val_ids: HashMap::new(),
+            keys_seen: HashSet::new(),
+            stamps: HashMap::new(),
+            pending_since: HashMap::new(),
+            prev: BTreeMap::new(),
+        }
+    }
+}
+
+impl KbucketRunner {
+    fn val(&mut self, tok: &str) -> Option<Enr> {
+        let (id, sub) = parse_val(tok)?;
+        if !self.vals.contains_key(&(id, sub)) {
+            let e = make_val(id, sub);
+            self.val_ids.insert((e.node_id(), e.seq()), id);
+            self.vals.insert((id, sub), e);
+        }
+        self.vals.get(&(id, sub)).cloned()
+    }
+
+    fn key(&mut self, s: &str) -> Option<Key<NodeId>> {
+        let b: [u8; 32] = unhx(s)?.try_into().ok()?;
+        self.keys_seen.insert(b);
+        Some(NodeId::new(&b).into())
+    }
+
+    fn val_id(&self, e: &Enr) -> u64 {
+        *self.val_ids.get(&(e.node_id(), e.seq())).unwrap_or(&u64::MAX)
+    }
+
+    fn snapshot(&self) -> BTreeMap<usize, SnapBucket> {
+        let mut out = BTreeMap::new();
+        let Some(t) = self.table.as_ref() else { return out };
+        for (i, b) in t.buckets_iter().enumerate() {
+            let nodes: Vec<SnapNode> = b
+                .iter()
+                .map(|n| SnapNode {
+                    key: n.key.preimage().raw(),
+                    conn: n.status.is_connected(),
+                    incoming: n.status.is_incoming(),
+                    val: self.val_id(&n.value),
+                    subnet: n.value.ip4().map(|ip| [ip.octets()[0], ip.octets()[1], ip.octets()[2]]),
+                })
+                .collect();
+            let pending = b.pending().and_then(|p| {
+                // the pending node's key is private: find it among the keys this case has used
+                let k = self.keys_seen.iter().find(|k| b.as_pending(&NodeId::new(k).into()).is_some())?;
+                Some(SnapNode {
+                    key: *k,
+                    conn: p.status().is_connected(),
+                    incoming: p.status().is_incoming(),
+                    val: self.val_id(p.value()),
+                    subnet: p.value().ip4().map(|ip| [ip.octets()[0], ip.octets()[1], ip.octets()[2]]),
+                })
+            });
+            if !nodes.is_empty() || b.pending().is_some() {
+                out.insert(i, SnapBucket { nodes, num_connected: b.num_connected(), pending });
+            }
+        }
+        out
+    }
+
+    fn dump(snap: &BTreeMap<usize, SnapBucket>) -> String {
+        if snap.is_empty() {
+            return "empty".into();
+        }
+        let show = |n: &SnapNode| {
+            format!("{}/{}/{}/v{}", hx(&n.key), if n.conn { "c" } else { "d" }, if n.incoming { "i" } else { "o" }, n.val)
+        };
+        snap.iter()
+            .map(|(i, b)| {
+                format!(
+                    "{}:[{}]nc={}/p={}",
+                    i,
+                    b.nodes.iter().map(show).collect::<Vec<_>>().join(","),
+                    b.num_connected,
+                    b.pending.as_ref().map(show).unwrap_or_else(|| "-".into())
+                )
+            })
+            .collect::<Vec<_>>()
+            .join(" ")
+    }
+
+    /// Implementation-side monitors for C07 / C16, evaluated on the table after every op.
+    fn monitors(&mut self, op: &str, op_key: Option<[u8; 32]>, restamp: bool, out: &mut Vec<String>, stats: &mut Stats) {
+        let snap = self.snapshot();
+        // ledger of "last entered its group"
+        for (i, b) in &snap {
+            for n in &b.nodes {
+                let was_pending = self.prev.get(i).and_then(|pb| pb.pending.as_ref()).map(|p| p.key == n.key).unwrap_or(false);
+                let was_node = self.prev.get(i).map(|pb| pb.nodes.iter().any(|m| m.key == n.key)).unwrap_or(false);
+                if (was_pending && !was_node) || !self.stamps.contains_key(&n.key) || (restamp && op_key == Some(n.key)) {
+                    self.stamps.insert(n.key, self.op_index);
+                }
+            }
+            if let Some(p) = &b.pending {
+                let was = self.prev.get(i).and_then(|pb| pb.pending.as_ref()).map(|q| q.key == p.key).unwrap_or(false);
+                if !was {
+                    self.pending_since.insert(p.key, self.now_ms);
+                }
+            }
+        }
+        let mut all_keys: HashSet<[u8; 32]> = HashSet::new();
+        let mut table_subnets: HashMap<[u8; 3], usize> = HashMap::new();
+        for (i, b) in &snap {
+            if b.nodes.len() > 16 {
+                out.push(format!("!MON C07 bucket-overfull bucket={} len={}", i, b.nodes.len()));
+            }
+            let mut seen_conn = false;
+            let mut last_stamp_dis = 0u64;
+            let mut last_stamp_con = 0u64;
+            let mut inc = 0;
+            let mut bucket_subnets: HashMap<[u8; 3], usize> = HashMap::new();
+            for n in b.nodes.iter().chain(b.pending.iter()) {
+                if !all_keys.insert(n.key) {
+                    out.push(format!("!MON C07 duplicate-key key={}", hx(&n.key)));
+                }
+                match log2_dist(&self.local, &n.key) {
+                    None => out.push("!MON C07 local-id-stored".into()),
+                    Some(d) if d != *i => out.push(format!("!MON C07 wrong-bucket bucket={} log2={}", i, d)),
+                    _ => {}
+                }
+                if let Some(s) = n.subnet {
+                    *table_subnets.entry(s).or_insert(0) += 1;
+                }
+            }
+            for n in &b.nodes {
+                if n.conn {
+                    seen_conn = true;
+                    let s = *self.stamps.get(&n.key).unwrap_or(&0);
+                    if s < last_stamp_con {
+                        out.push(format!("!MON C07 connected-group-out-of-order bucket={}", i));
+                    }
+                    last_stamp_con = s;
+                    if n.incoming {
+                        inc += 1;
+                    }
+                } else {
+                    if seen_conn {
+                        out.push(format!("!MON C07 disconnected-after-connected bucket={}", i));
+                    }
+                    let s = *self.stamps.get(&n.key).unwrap_or(&0);
+                    if s < last_stamp_dis {
+                        out.push(format!("!MON C07 disconnected-group-out-of-order bucket={}", i));
+                    }
+                    last_stamp_dis = s;
+                }
+                if let Some(s) = n.subnet {
+                    *bucket_subnets.entry(s).or_insert(0) += 1;
+                }
+            }
+            let nconn = b.nodes.iter().filter(|n| n.conn).count();
+            if nconn != b.num_connected {
+                out.push(format!("!MON C07 first-connected-pos-inconsistent bucket={}", i));
+            }
+            if inc > self.max_incoming {
+                out.push(format!("!MON C07 too-many-incoming bucket={} n={}", i, inc));
+            }
+            if self.ip_filters {
+                for (s, c) in &bucket_subnets {
+                    if *c > 2 {
+                        out.push(format!("!MON C16 bucket-subnet-limit bucket={} subnet={:?} n={}", i, s, c));
+                    }
+                }
+            }
+            // pending promotion semantics
+            if let Some(pb) = self.prev.get(i) {
+                if let Some(p) = &pb.pending {
+                    let promoted = b.nodes.iter().any(|n| n.key == p.key) && !pb.nodes.iter().any(|n| n.key == p.key);
+                    if promoted {
+                        stats.bump("kb.pending-promoted");
+                        let since = *self.pending_since.get(&p.key).unwrap_or(&0);
+                        let removed_here = op.starts_with("krm") || op.starts_with("kupd") || op.starts_with("kins") || op.starts_with("kstatus");
+                        if pb.nodes.len() >= 16 {
+                            let first = &pb.nodes[0];
+                            let first_gone = !b.nodes.iter().any(|n| n.key == first.key);
+                            let other_gone = pb.nodes.iter().skip(1).any(|m| !b.nodes.iter().any(|n| n.key == m.key));
+                            if other_gone && !removed_here {
+                                out.push(format!("!MON C07 pending-evicted-wrong-node bucket={}", i));
+                            }
+                            if first_gone && first.conn && !(removed_here && op_key == Some(first.key)) {
+                                out.push(format!("!MON C07 pending-evicted-connected-node bucket={}", i));
+                            }
+                            if self.now_ms < since + self.pending_ms && !(removed_here && op_key.map(|k| pb.nodes.iter().any(|n| n.key == k)).unwrap_or(false)) {
+                                out.push(format!("!MON C07 pending-promoted-before-timeout bucket={}", i));
+                            }
+                        }
+                    }
+                }
+            }
+        }
+        if self.ip_filters {
+            for (s, c) in &table_subnets {
+                if *c > 10 {
+                    out.push(format!("!MON C16 table-subnet-limit subnet={:?} n={}", s, c));
+                }
+            }
+        }
+        let full = snap.values().filter(|b| b.nodes.len() >= 16).count();
+        if full > 0 {
+            stats.bump("kb.ops-with-full-bucket");
+        }
+        if snap.values().any(|b| b.pending.is_some()) {
+            stats.bump("kb.ops-with-pending");
+        }
+        self.prev = snap;
+    }
+
+    fn sorted_scan(&self, target: &[u8; 32]) -> Vec<[u8; 32]> {
+        let mut v: Vec<[u8; 32]> = self.table.as_ref().unwrap().iter_ref().map(|e| e.node.key.preimage().raw()).collect();
+        v.sort_by_key(|k| xor_dist(k, target));
+        v
+    }
+}
+
+fn parse_state(s: &str) -> Option<ConnectionState> {
+    match s {
+        "c" => Some(ConnectionState::Connected),
+        "d" => Some(ConnectionState::Disconnected),
+        _ => None,
+    }
+}
+
+fn parse_dir(s: &str) -> Option<ConnectionDirection> {
+    match s {
+        "i" => Some(ConnectionDirection::Incoming),
+        "o" => Some(ConnectionDirection::Outgoing),
+        _ => None,
+    }
+}
+
+fn keys_line(keys: &[[u8; 32]]) -> String {
+    if keys.is_empty() {
+        "-".into()
+    } else {
+        keys.iter().map(|k| hx(k)).collect::<Vec<_>>().join(",")
+    }
+}
+
+impl Runner for KbucketRunner {
+    fn reset(&mut self) {
+        *self = KbucketRunner::default();
+    }
+
+    fn step(&mut self, line: &str, out: &mut Vec<String>, stats: &mut Stats) {
+        let t: Vec<&str> = line.split(' ').collect();
+        self.op_index += 1;
+        if t[0] == "knew" && t.len() == 6 {
+            let Some(local) = unhx(t[1]).and_then(|b| <[u8; 32]>::try_from(b).ok()) else {
+                out.push("bad-op".into());
+                return;
+            };
+            self.reset();
+            self.local = local;
+            self.pending_ms = t[2].parse().unwrap_or(0);
+            self.max_incoming = t[3].parse().unwrap_or(16);
+            self.ip_filters = t[4] == "ip" && t[5] == "ip";
+            self.table = Some(discv5::verif::kbucket::new_table(
+                NodeId::new(&local),
+                Duration::from_millis(self.pending_ms),
+                self.max_incoming,
+                t[4] == "ip",
+                t[5] == "ip",
+            ));
+            out.push("ok".into());
+            return;
+        }
+        if self.table.is_none() {
+            out.push("bad-op".into());
+            return;
+        }
+        match t.as_slice() {
+            ["ksleep", ms] => {
+                let ms: u64 = ms.parse().unwrap_or(0);
+                std::thread::sleep(Duration::from_millis(ms));
+                self.now_ms += ms;
+                stats.bump("kb.sleeps");
+                out.push("ok".into());
+            }
+            ["kins", key, val, conn, dir] => {
+                let (Some(k), Some(v), Some(c), Some(d)) = (self.key(key), self.val(val), parse_state(conn), parse_dir(dir)) else {
+                    out.push("bad-op".into());
+                    return;
+                };
+                let r = self.table.as_mut().unwrap().insert_or_update(&k, v, NodeStatus { state: c, direction: d });
+                let s = show_ins(&r);
+                stats.bump(&format!("kins.{}", s.split(':').next().unwrap()));
+                if let InsertResult::Failed(f) = &r {
+                    stats.bump(&format!("kins.failed.{}", fail_name(f)));
+                }
+                self.monitors("kins", Some(k.preimage().raw()), true, out, stats);
+                out.push(s);
+            }
+            ["kupd", key, val, state] => {
+                let (Some(k), Some(v)) = (self.key(key), self.val(val)) else {
+                    out.push("bad-op".into());
+                    return;
+                };
+                let st = parse_state(state);
+                let r = self.table.as_mut().unwrap().update_node(&k, v, st);
+                let s = show_upd(&r);
+                stats.bump(&format!("kupd.{}", s));
+                self.monitors("kupd", Some(k.preimage().raw()), st.is_some(), out, stats);
+                out.push(s);
+            }
+            ["kstatus", key, state, dir] => {
+                let (Some(k), Some(c)) = (self.key(key), parse_state(state)) else {
+                    out.push("bad-op".into());
+                    return;
+                };
+                let r = self.table.as_mut().unwrap().update_node_status(&k, c, parse_dir(dir));
+                let s = show_upd(&r);
+                stats.bump(&format!("kstatus.{}", s));
+                self.monitors("kstatus", Some(k.preimage().raw()), true, out, stats);
+                out.push(s);
+            }
+            ["krm", key] => {
+                let Some(k) = self.key(key) else {
+                    out.push("bad-op".into());
+                    return;
+                };
+                let r = self.table.as_mut().unwrap().remove(&k);
+                self.monitors("krm", Some(k.preimage().raw()), false, out, stats);
+                out.push(format!("{}", r));
+            }
+            ["kentry", key] => {
+                let Some(k) = self.key(key) else {
+                    out.push("bad-op".into());
+                    return;
+                };
+                let kraw = k.preimage().raw();
+                let r = {
+                    let mut guard = self.table.take().unwrap();
+                    let r = match guard.entry(&k) {
+                        Entry::Present(e, st) => {
+                            let id = self.val_id(e.value());
+                            format!(
+                                "present:{}/{}/{}/v{}",
+                                hx(&kraw),
+                                if st.is_connected() { "c" } else { "d" },
+                                if st.is_incoming() { "i" } else { "o" },
+                                id
+                            )
+                        }
+                        Entry::Pending(e, _) => format!("pending:v{}", self.val_id(e.value())),
+                        Entry::Absent(_) => "absent".to_string(),
+                        Entry::SelfEntry => "self".to_string(),
+                    };
+                    self.table = Some(guard);
+                    r
+                };
+                self.monitors("kentry", Some(kraw), false, out, stats);
+                out.push(r);
+            }
+            ["kiter"] => {
+                let keys: Vec<[u8; 32]> = self.table.as_mut().unwrap().iter().map(|e| e.node.key.preimage().raw()).collect();
+                self.monitors("kiter", None, false, out, stats);
+                out.push(keys_line(&keys));
+            }
+            ["kclosest", target] | ["kclosestp", target, _] => {
+                let Some(tb) = unhx(target).and_then(|b| <[u8; 32]>::try_from(b).ok()) else {
+                    out.push("bad-op".into());
+                    return;
+                };
+                let tk: Key<NodeId> = NodeId::new(&tb).into();
+                let pred_mod: Option<u64> = t.get(2).and_then(|m| m.parse().ok());
+                let mut flags = Vec::new();
+                let keys: Vec<[u8; 32]> = if let Some(m) = pred_mod {
+                    let ids = self.val_ids.clone();
+                    let pred = move |e: &Enr| ids.get(&(e.node_id(), e.seq())).map(|id| id % m == 0).unwrap_or(false);
+                    let v: Vec<([u8; 32], bool, bool)> = self
+                        .table
+                        .as_mut()
+                        .unwrap()
+                        .closest_values_predicate(&tk, &pred)
+                        .map(|p| (p.key.preimage().raw(), p.predicate_match, pred(&p.value)))
+                        .collect();
+                    for (_, f, want) in &v {
+                        if f != want {
+                            out.push("!MON C08 predicate-flag-wrong".into());
+                        }
+                        flags.push(*f);
+                    }
+                    v.into_iter().map(|x| x.0).collect()
+                } else {
+                    self.table.as_mut().unwrap().closest_keys(&tk).map(|k| k.preimage().raw()).collect()
+                };
+                // monitor: exactly the sorted full scan
+                let scan = self.sorted_scan(&tb);
+                if keys != scan {
+                    let mut uniq = HashSet::new();
+                    let dup = keys.iter().any(|k| !uniq.insert(*k));
+                    let sig = if dup {
+                        "closest-yields-duplicate"
+                    } else if keys.len() != scan.len() {
+                        "closest-misses-nodes"
+                    } else {
+                        "closest-not-sorted"
+                    };
+                    out.push(format!("!MON C08 {} target-log2={:?}", sig, log2_dist(&self.local, &tb)));
+                }
+                if !scan.is_empty() {
+                    stats.bump("kclosest.nonempty");
+                }
+                if self.prev.contains_key(&0) || self.prev.contains_key(&1) || self.prev.contains_key(&2) {
+                    stats.bump("kclosest.low-bucket-occupied");
+                }
+                self.monitors("kclosest", None, false, out, stats);
+                if pred_mod.is_some() {
+                    let s: Vec<String> = keys.iter().zip(flags.iter()).map(|(k, f)| format!("{}/{}", hx(k), f)).collect();
+                    out.push(if s.is_empty() { "-".into() } else { s.join(",") });
+                } else {
+                    out.push(keys_line(&keys));
+                }
+            }
+            ["kbydist", ds, max_n] => {
+                let dl: Vec<u64> = if *ds == "-" { vec![] } else { ds.split(',').filter_map(|d| d.parse().ok()).collect() };
+                let max_n: usize = max_n.parse().unwrap_or(16);
+                let keys: Vec<[u8; 32]> = self
+                    .table
+                    .as_mut()
+                    .unwrap()
+                    .nodes_by_distances(&dl, max_n)
+                    .into_iter()
+                    .map(|e| e.node.key.preimage().raw())
+                    .collect();
+                // monitor (for distinct distance lists): only nodes at the requested distances,
+                // all of them up to the cap, nothing outside 1..=256
+                let distinct = dl.iter().collect::<HashSet<_>>().len() == dl.len();
+                let want: Vec<[u8; 32]> = {
+                    let t = self.table.as_ref().unwrap();
+                    let mut v = Vec::new();
+                    for d in dl.iter().filter(|d| **d >= 1 && **d <= 256) {
+                        for e in t.iter_ref() {
+                            let k = e.node.key.preimage().raw();
+                            if log2_dist(&self.local, &k) == Some(*d as usize - 1) {
+                                v.push(k);
+                            }
+                        }
+                    }
+                    v
+                };
+                if distinct && max_n >= 1 {
+                    let cap = want.len().min(max_n);
+                    let got: HashSet<[u8; 32]> = keys.iter().cloned().collect();
+                    let wanted: HashSet<[u8; 32]> = want.iter().cloned().collect();
+                    if !got.is_subset(&wanted) {
+                        out.push("!MON C08 bydist-returns-off-distance-node".into());
+                    } else if keys.len() != cap || got.len() != keys.len() {
+                        out.push(format!("!MON C08 bydist-wrong-count got={} want={}", keys.len(), cap));
+                    }
+                }
+                if !keys.is_empty() {
+                    stats.bump("kbydist.nonempty");
+                }
+                self.monitors("kbydist", None, false, out, stats);
+                out.push(keys_line(&keys));
+            }
+            ["ktake"] => {
+                let r = match self.table.as_mut().unwrap().take_applied_pending() {
+                    None => "none".to_string(),
+                    Some(a) => {
+                        stats.bump("ktake.some");
+                        format!(
+                            "{}/{}",
+                            hx(&a.inserted.preimage().raw()),
+                            a.evicted.map(|n| hx(&n.key.preimage().raw())).unwrap_or_else(|| "-".into())
+                        )
+                    }
+                };
+                out.push(r);
+            }
+            ["kdump"] => {
+                let snap = self.snapshot();
+                out.push(Self::dump(&snap));
+            }
+            _ => out.push("bad-op".into()),
+        }
+    }
+}
+
+// ---------------------------------------------------------------------------------------------
+// generator
+
+fn key_at(local: &[u8; 32], bucket: usize, rng: &mut Rng) -> [u8; 32] {
+    // distance with most significant bit `bucket`, random lower bits
+    let mut d = [0u8; 32];
+    let r = rng.bytes(32);
+    for bit in 0..bucket {
+        let byte = 31 - bit / 8;
+        if r[byte] & (1 << (bit % 8)) != 0 {
+            d[byte] |= 1 << (bit % 8);
+        }
+    }
+    d[31 - bucket / 8] |= 1 << (bucket % 8);
+    xor_dist(local, &d)
+}
+
+pub fn gen_case(rng: &mut Rng, tier: &str, profile: &str, stats: &mut Stats) -> Vec<String> {
+    let mut ops = Vec::new();
+    let local: [u8; 32] = rng.bytes(32).try_into().unwrap();
+    let ip = profile == "C16" || (profile != "C07" && profile != "C08" && rng.chance(1, 3));
+    // pending-timeout regimes: already elapsed (0), never elapses, elapses mid-sequence (real sleeps)
+    let regime = if tier == "thorough" { rng.below(12) } else { rng.below(40) };
+    let (pending_ms, sleeps) = match regime {
+        0 => (200u64, true),
+        r if r % 2 == 1 => (0, false),
+        _ => (100_000_000, false),
+    };
+    let max_in = match rng.below(8) {
+        0 => 0,
+        1 => 1,
+        2 | 3 => rng.below(17),
+        _ => 16,
+    };
+    ops.push(format!("knew {} {} {} {} {}", hx(&local), pending_ms, max_in, if ip { "ip" } else { "none" }, if ip { "ip" } else { "none" }));
+    // key universe: 2-4 hot buckets (driven to fullness), low-index buckets, a spread over all distances
+    let mut hot: Vec<usize> = vec![255 - rng.below(3) as usize];
+    if rng.chance(1, 2) {
+        hot.push(rng.range(5, 250) as usize);
+    }
+    hot.push(rng.range(4, 8) as usize);
+    let mut keys: Vec<[u8; 32]> = Vec::new();
+    for &h in &hot {
+        for _ in 0..rng.range(17, 22) {
+            keys.push(key_at(&local, h, rng));
+        }
+    }
+    for b in 0..4usize {
+        for _ in 0..(1usize << b).min(3) {
+            keys.push(key_at(&local, b, rng));
+        }
+    }
+    for _ in 0..6 {
+        let b = rng.below(256) as usize;
+        keys.push(key_at(&local, b, rng));
+    }
+    keys.push(local);
+    let mut seen = std::collections::HashSet::new();
+    keys.retain(|k| seen.insert(*k));
+    // values: per key a few record variants; few subnets so that IP limits are reached
+    let nsub = rng.range(2, 3);
+    let mut next_val = 0u64;
+    let mut vals: Vec<Vec<String>> = Vec::new();
+    for _ in &keys {
+        let mut v = Vec::new();
+        for j in 0..3 {
+            let sub = if rng.chance(1, 7) { None } else { Some(rng.below(nsub)) };
+            v.push(format!("v{}:{}", next_val, sub.map(|s| s.to_string()).unwrap_or_else(|| "-".into())));
+            next_val += 1;
+            if j == 0 && rng.chance(1, 2) {
+                break;
+            }
+        }
+        vals.push(v);
+    }
+    let nops = if tier == "thorough" { rng.range(200, 400) } else { rng.range(150, 300) };
+    let mut sleeps_left = if sleeps { 2 } else { 0 };
+    for i in 0..nops {
+        // first third: fill the hot buckets; afterwards churn over the whole universe
+        let nhot = keys.len().saturating_sub(24).max(1);
+        let ki = if i < nops / 3 || rng.chance(2, 3) { rng.below(nhot as u64) as usize } else { rng.below(keys.len() as u64) as usize };
+        let key = hx(&keys[ki]);
+        let val = rng.pick(&vals[ki]).clone();
+        let conn = if rng.chance(3, 5) { "c" } else { "d" };
+        let dir = if rng.chance(1, 3) { "i" } else { "o" };
+        match rng.below(100) {
+            0..=44 => ops.push(format!("kins {} {} {} {}", key, val, conn, dir)),
+            45..=59 => ops.push(format!("kstatus {} {} {}", key, conn, if rng.chance(1, 3) { "-" } else { dir })),
+            60..=69 => ops.push(format!("kupd {} {} {}", key, val, match rng.below(3) { 0 => "c", 1 => "d", _ => "-" })),
+            70..=76 => ops.push(format!("krm {}", key)),
+            77..=80 => ops.push(format!("kentry {}", key)),
+            81..=83 => ops.push("kiter".into()),
+            84..=89 => {
+                // targets: the local id, stored ids, ids at every log2 distance, low bits set
+                let target: [u8; 32] = match rng.below(6) {
+                    0 => local,
+                    1 => keys[rng.below(keys.len() as u64) as usize],
+                    2 => key_at(&local, rng.below(256) as usize, rng),
+                    3 => {
+                        let mut t = key_at(&local, rng.below(256) as usize, rng);
+                        t[31] ^= rng.range(1, 7) as u8; // lowest bits of the distance set
+                        t
+                    }
+                    4 => key_at(&local, rng.below(4) as usize, rng),
+                    _ => rng.bytes(32).try_into().unwrap(),
+                };
+                if rng.chance(1, 3) {
+                    ops.push(format!("kclosestp {} {}", hx(&target), rng.range(1, 3)));
+                } else {
+                    ops.push(format!("kclosest {}", hx(&target)));
+                }
+                stats.bump("gen.kclosest");
+            }
+            90..=94 => {
+                let n = rng.below(5);
+                let mut ds: Vec<String> = Vec::new();
+                for _ in 0..n {
+                    let d = match rng.below(6) {
+                        0 => 0,
+                        1 => 257,
+                        2 => 256,
+                        3 => rng.range(1, 9),
+                        _ => hot[rng.below(hot.len() as u64) as usize] as u64 + 1,
+                    };
+                    if !ds.contains(&d.to_string()) || rng.chance(1, 10) {
+                        ds.push(d.to_string());
+                    }
+                }
+                let max_n = match rng.below(4) { 0 => 1, 1 => 16, 2 => 5, _ => rng.range(1, 40) };
+                ops.push(format!("kbydist {} {}", if ds.is_empty() { "-".into() } else { ds.join(",") }, max_n));
+            }
+            95..=96 => ops.push("ktake".into()),
+            _ => {
+                if sleeps_left > 0 && i > nops / 3 {
+                    ops.push("ksleep 450".into());
+                    sleeps_left -= 1;
+                } else {
+                    ops.push("kdump".into());
+                }
+            }
+        }
+        if rng.chance(1, 6) {
+            ops.push("kdump".into());
+        }
+    }
+    ops.push("kiter".into());
+    ops.push("kdump".into());
+    stats.bump(if ip { "gen.case.ip-filters" } else { "gen.case.no-filters" });
+    stats.bump(&format!("gen.case.pending-regime.{}", if sleeps { "mid-sequence" } else if pending_ms == 0 { "elapsed" } else { "never" }));
+    ops
 }
